@@ -5,7 +5,7 @@ constructively (draw the target mixture, compute concentrations / quantities / t
 exactly those), so feasibility is known; infeasible ones by pushing one value across its limit."""
 from __future__ import annotations
 
-from .common import shard, run_cases, BASE_ASSUMPTIONS
+from .common import shard, run_cases, BASE_ASSUMPTIONS, repo_suite, repo_suite_job
 
 ID = 'C05'
 LEVEL = 'exploration'
@@ -42,12 +42,21 @@ def required_buckets(tier):
 
 
 def plan(tier, seed):
+    jobs = _plan(tier, seed)
+    if tier != 'quick' or False:
+        jobs = jobs + repo_suite_job()
+    return jobs
+
+
+def _plan(tier, seed):
     if tier == 'quick':
         return shard('constructive', 1200, 12)
     return shard('constructive', 40000, 32)
 
 
 def run_job(job):
+    if job['kind'] == 'repo_suite':
+        return run_cases(job, repo_suite)
     return run_cases(job, constructive)
 
 
